@@ -161,7 +161,9 @@ static void do_pass(long t, const char *res)
 		snap();
 		OUT("}\n");
 	}
-	long mret = ((uint32_t)(ret - real(t)) == FIBRE_UNBOUNDED_SLEEP) ? -2 : model(ret);
+	/* "unbounded" is t + FIBRE_UNBOUNDED_SLEEP, and that must be cyclically after t for a main loop to sleep on it */
+	int ub_sane = (uint32_t)FIBRE_UNBOUNDED_SLEEP > 0 && (uint32_t)FIBRE_UNBOUNDED_SLEEP <= 0x7fffffffu;
+	long mret = ((uint32_t)(ret - real(t)) == FIBRE_UNBOUNDED_SLEEP) ? (ub_sane ? -2 : -3) : model(ret);
 	OUT("{\"e\":\"PassEnd\",\"a\":[\"%s\"],\"ret\":%ld,\"self\":%d,", ran ? (genmode ? rname(result_code) : res) : "none", mret, fid(fibre_self()));
 	snap();
 	OUT("}\n");
